@@ -1109,7 +1109,10 @@ impl TryFrom<&mut Peekable<Lexer>> for ParserNode {
                                     // an unterminated macro is ignored up to the end
                                     // of the file, with the same warning
                                     Err(LexError::UnexpectedEOF) => break,
-                                    other => other?,
+                                    // what the lexer cannot read is skipped with the
+                                    // rest of the body (RARS's `%param` among it)
+                                    Err(_) => continue,
+                                    Ok(token) => token,
                                 };
                                 if let TokenType::Directive(dir2) = next.token_type() {
                                     if let Ok(new_dir) = DirectiveToken::from_str(dir2) {
